@@ -200,6 +200,8 @@ cdef class _cyExpression:
             raise RuntimeError("indices can only be loaded into an empty expression")
 
         cdef const index_type[:] indices = np.frombuffer(buff[:dtype.itemsize*num_variables], dtype=dtype)
+        if indices.shape[0] != num_variables:
+            raise ValueError("given buffer is too short for the number of records")
         for vi in range(num_variables):
             expression.add_linear(indices[vi], 0)
 
@@ -223,6 +225,8 @@ cdef class _cyExpression:
             raise RuntimeError("num_variables must match expression.num_variables()")
 
         cdef const bias_type[:] ldata = np.frombuffer(buff[:dtype.itemsize*num_variables], dtype=dtype)
+        if ldata.shape[0] != num_variables:
+            raise ValueError("given buffer is too short for the number of records")
         for vi in range(num_variables):
             (<cppQuadraticModelBase[bias_type, index_type]*>expression).set_linear(vi, ldata[vi])
 
@@ -264,6 +268,8 @@ cdef class _cyExpression:
         dtype = np.dtype([('u', self.index_dtype), ('v', self.index_dtype), ('bias', self.dtype)],
                          align=False)
         quadratic = np.frombuffer(buff[:dtype.itemsize*num_interactions], dtype=dtype)
+        if quadratic.shape[0] != num_interactions:
+            raise ValueError("given buffer is too short for the number of records")
         cdef const index_type[:] irow = quadratic["u"]
         cdef const index_type[:] icol = quadratic["v"]
         cdef const bias_type[:] qdata = quadratic["bias"]
